@@ -303,7 +303,7 @@ def run(tier):
             raise C.Machinery('TLC failed on OptionFile %s: %s' % (cfg, r.out[-1500:]))
         chk.add_tlc(r)
         for rec in r.printed():
-            if frac < 1.0 and rsel.random() >= frac:
+            if frac < 1.0 and not C.pick(rec['cmd'], frac, 'c15-select'):
                 continue
             nwires = sum(1 for o in rec['cmd']['objs'] if o['kind'] == 'W')
             if nwires >= 2 and rec['cmd']['attach']:
